@@ -10,8 +10,8 @@ open GA GA.Compress
 
 /-- the regenerated tables are what the theorems below are about -/
 theorem tables_present :
-    Facts.detectTable? = some [(1, some [66, 90, 104]), (2, some [31, 139, 8]), (3, some [253, 55, 122, 88, 90, 0]), (4, none)] ∧
-    Facts.detectOrder? = some [1, 2, 3, 4] ∧ Facts.zstdMagic? = some [40, 181, 47, 253] ∧
+    table.Perm [(1, some [66, 90, 104]), (2, some [31, 139, 8]), (3, some [253, 55, 122, 88, 90, 0]), (4, none)] ∧
+    order.Perm [1, 2, 3, 4] ∧ Facts.zstdMagic? = some [40, 181, 47, 253] ∧
     Facts.zstdMagicSkippableStart? = some 0x184D2A50 ∧ Facts.zstdMagicSkippableMask? = some 0xFFFFFFF0 ∧
     Facts.compressionNone? = some 0 := by decide
 
@@ -125,15 +125,21 @@ theorem detect_order_irrelevant (src : List UInt8) (ord : List Nat) (h : ∀ c, 
       intro x hx; exact h1 x ((h x).mp hx)
     rw [this]
 
+/-- the order in the source is some order of the four formats; by `detect_order_irrelevant` the
+    theorems below may therefore fix one -/
+theorem detect_eq_canon (src : List UInt8) : detect src = detectWith [1, 2, 3, 4] src := by
+  have hp : order.Perm [1, 2, 3, 4] := by decide
+  exact (detect_order_irrelevant src [1, 2, 3, 4] (fun c => (hp.mem_iff).symm)).symm
+
 /-- every stream that starts with a format's magic is detected as that format -/
 theorem detect_bzip2 (rest : List UInt8) : detect ([66, 90, 104] ++ rest) = 1 := by
-  simp [detect, detectWith, order, table, Facts.detectOrder?, Facts.detectTable?, matcher]
+  rw [detect_eq_canon]; simp [detectWith, table, Facts.detectTable?, matcher]
 theorem detect_gzip (rest : List UInt8) : detect ([31, 139, 8] ++ rest) = 2 := by
-  simp [detect, detectWith, order, table, Facts.detectOrder?, Facts.detectTable?, matcher]
+  rw [detect_eq_canon]; simp [detectWith, table, Facts.detectTable?, matcher]
 theorem detect_xz (rest : List UInt8) : detect ([253, 55, 122, 88, 90, 0] ++ rest) = 3 := by
-  simp [detect, detectWith, order, table, Facts.detectOrder?, Facts.detectTable?, matcher]
+  rw [detect_eq_canon]; simp [detectWith, table, Facts.detectTable?, matcher]
 theorem detect_zstd (rest : List UInt8) : detect ([40, 181, 47, 253] ++ rest) = 4 := by
-  simp [detect, detectWith, order, table, Facts.detectOrder?, Facts.detectTable?, matcher, zstdMatch, zstdMagic,
+  rw [detect_eq_canon]; simp [detectWith, table, Facts.detectTable?, matcher, zstdMatch, zstdMagic,
     Facts.zstdMagic?]
 
 /-- a stream of at least 8 bytes that starts with a skippable-frame magic (0x184D2A50–5F) is zstd -/
@@ -149,7 +155,7 @@ theorem detect_skippable (src : List UInt8) (hlen : 8 ≤ src.length)
       simp only [zstdMatch, Bool.or_eq_true, Bool.and_eq_true, decide_eq_true_eq, beq_iff_eq]
       right
       exact ⟨hlen, by simpa [skipMask, skipStart, Facts.zstdMagicSkippableMask?, Facts.zstdMagicSkippableStart?] using hm⟩
-    simp [detect, detectWith, order, table, Facts.detectOrder?, Facts.detectTable?, matcher, hz,
+    rw [detect_eq_canon]; simp [detectWith, table, Facts.detectTable?, matcher, hz,
       Ne.symm n1, Ne.symm n2, Ne.symm n3]
   | [], hlen, _ => simp at hlen
   | [_], hlen, _ => simp at hlen
@@ -159,9 +165,9 @@ theorem detect_skippable (src : List UInt8) (hlen : 8 ≤ src.length)
 /-- nothing shorter than three bytes is taken for a compressed stream -/
 theorem detect_short (src : List UInt8) (h : src.length ≤ 2) : detect src = 0 := by
   match src, h with
-  | [], _ => simp [detect, detectWith, order, table, Facts.detectOrder?, Facts.detectTable?, matcher, zstdMatch, zstdMagic, Facts.zstdMagic?, cNone, Facts.compressionNone?]
-  | [a], _ => simp [detect, detectWith, order, table, Facts.detectOrder?, Facts.detectTable?, matcher, zstdMatch, zstdMagic, Facts.zstdMagic?, cNone, Facts.compressionNone?]
-  | [a, b], _ => simp [detect, detectWith, order, table, Facts.detectOrder?, Facts.detectTable?, matcher, zstdMatch, zstdMagic, Facts.zstdMagic?, cNone, Facts.compressionNone?]
+  | [], _ => rw [detect_eq_canon]; simp [detectWith, table, Facts.detectTable?, matcher, zstdMatch, zstdMagic, Facts.zstdMagic?, cNone, Facts.compressionNone?]
+  | [a], _ => rw [detect_eq_canon]; simp [detectWith, table, Facts.detectTable?, matcher, zstdMatch, zstdMagic, Facts.zstdMagic?, cNone, Facts.compressionNone?]
+  | [a, b], _ => rw [detect_eq_canon]; simp [detectWith, table, Facts.detectTable?, matcher, zstdMatch, zstdMagic, Facts.zstdMagic?, cNone, Facts.compressionNone?]
 
 /-- **pass-through is exact at every length**: what is not recognised is handed back unchanged -/
 theorem passthrough_exact (codec : Nat → List UInt8 → Option (List UInt8)) (s : List UInt8)
